@@ -50,6 +50,9 @@ pub assume_specification<T: Ord>[ std::cmp::min::<T> ](a: T, b: T) -> (r: T)
     ensures r == if ord_le(a, b) { a } else { b };
 pub assume_specification<T: Ord>[ std::cmp::max::<T> ](a: T, b: T) -> (r: T)
     ensures r == if ord_le(a, b) { b } else { a };
+// Cow::from(String): "Converts a String into an Owned variant. No heap allocation is performed, and the string is not copied."
+pub assume_specification<'a>[ <Cow<'a, str> as From<String>>::from ](s: String) -> (r: Cow<'a, str>)
+    ensures cow_view(&r) == s@;
 // Cow::from(&str): "Converts a string slice into a Borrowed variant. No heap allocation is performed, and the string is not copied."
 pub assume_specification<'a>[ <Cow<'a, str> as From<&'a str>>::from ](s: &'a str) -> (r: Cow<'a, str>)
     ensures cow_view(&r) == s@;
